@@ -367,7 +367,7 @@ func rulesC04(c *Ctx) {
 			f := c.Fn(pM, "streamableClientConn", name)
 			g := f.Graph()
 			ctxP := f.CtxParam()
-			c.Need(ctxP != nil, name+": the call's context")
+			c.Must(ctxP != nil, name+":has-the-call's-context", f, nil, name+" receives the context of the call whose response it reads: without it a failed read cannot be told from a cancelled call, and cancelling one call fails the session")
 			// error variables that come from reading the response body
 			readErrs := map[types.Object]int{} // error variable → vertex where the read bound it
 			for _, call := range f.AllCalls(f.Body, false) {
@@ -572,7 +572,7 @@ func rulesC04(c *Ctx) {
 							}
 						}
 						if !rec {
-							c.Undecided("write:notification-bypass-extra-condition", l, a.E, "the bypass is narrowed by an additional condition %s: a cancel notice admitted by Notify may now be refused during shutdown and never reach the peer", a.String())
+							c.Fail("write:notification-bypass-extra-condition", l, a.E, "the bypass is narrowed by an additional condition %s: a cancel notice admitted by Notify may now be refused during shutdown and never reach the peer", a.String())
 						}
 					}
 				}
